@@ -6,6 +6,7 @@ import (
 	"fmt"
 	"os"
 	"reflect"
+	"runtime/debug"
 	"sort"
 	"strconv"
 	"strings"
@@ -21,6 +22,8 @@ func init() {
 
 type U0 interface{}
 type U1 interface{}
+type U2 interface{}
+type U3 interface{}
 type URoot interface{}
 type DynRoot struct {
 	X URoot `@@`
@@ -60,6 +63,8 @@ var coreLexer = lexer.MustSimple([]lexer.SimpleRule{
 var ifaces = map[string]reflect.Type{
 	"U0":    reflect.TypeOf((*U0)(nil)).Elem(),
 	"U1":    reflect.TypeOf((*U1)(nil)).Elem(),
+	"U2":    reflect.TypeOf((*U2)(nil)).Elem(),
+	"U3":    reflect.TypeOf((*U3)(nil)).Elem(),
 	"URoot": reflect.TypeOf((*URoot)(nil)).Elem(),
 }
 
@@ -145,6 +150,18 @@ func build(g *gGrammar, k int) (b *built, err error) {
 				ms[i] = members[i]
 			}
 			opts = append(opts, participle.Union[U1](ms...))
+		case "U2":
+			ms := make([]U2, len(members))
+			for i := range members {
+				ms[i] = members[i]
+			}
+			opts = append(opts, participle.Union[U2](ms...))
+		case "U3":
+			ms := make([]U3, len(members))
+			for i := range members {
+				ms[i] = members[i]
+			}
+			opts = append(opts, participle.Union[U3](ms...))
 		}
 	}
 	if g.CI {
@@ -329,6 +346,10 @@ func lexCheck(b *built, g *gGrammar, i int) string {
 
 // parse-run <cases.json>: for every grammar, lookahead and input prints "id\tk\tindex\toutcome".
 func parseRun(args []string) error {
+	if ms := os.Getenv("VH_MAXSTACK"); ms != "" {
+		n, _ := strconv.Atoi(ms)
+		debug.SetMaxStack(n)
+	}
 	f, err := os.Open(args[0])
 	if err != nil {
 		return err
@@ -510,4 +531,37 @@ func parseBytes(args []string) error {
 		return err
 	}
 	return os.WriteFile(args[1], ob, 0o644)
+}
+
+func init() { commands["build-run"] = buildRun }
+
+// build-run <cases.json>: Build every grammar (lookahead = its first k); "id\tok" | "id\terr <message>" | "id\tpanic ..."
+func buildRun(args []string) error {
+	f, err := os.Open(args[0])
+	if err != nil {
+		return err
+	}
+	defer f.Close()
+	var gs []gGrammar
+	if err := json.NewDecoder(bufio.NewReaderSize(f, 1<<20)).Decode(&gs); err != nil {
+		return err
+	}
+	w := bufio.NewWriterSize(os.Stdout, 1<<20)
+	defer w.Flush()
+	for gi := range gs {
+		g := &gs[gi]
+		res := runGuarded(func() string {
+			_, err := build(g, g.Ks[0])
+			if err != nil {
+				msg := strings.ReplaceAll(err.Error(), "\n", " ")
+				if strings.HasPrefix(msg, "PANIC") {
+					return "panic " + msg
+				}
+				return "err " + msg
+			}
+			return "ok"
+		})
+		fmt.Fprintf(w, "%s\t%s\n", g.ID, res)
+	}
+	return nil
 }
